@@ -298,6 +298,31 @@ def channel_case(p, res):
             res.ev(1, transitions=1)
             if not torch.equal(y, want):
                 v("verbatim", f"supplied noise is not added verbatim: max deviation {float((y - want).abs().max()):.3g}")
+            # every pairing of signal and noise dtypes (noise may be richer than the signal: complex on real, double on single): the output is
+            # signal (+ fading) plus exactly that noise, nothing of it dropped or rounded; a channel may decline a pairing
+            base_n = 0.01 * torch.arange(24, dtype=torch.float64) - 0.1 + 1e-9 * torch.arange(24, dtype=torch.float64) ** 2
+            for xdt in ((torch.complex64, torch.complex128) if cplx else (torch.float32, torch.float64)):
+                for ndt in (torch.float32, torch.float64, torch.complex64, torch.complex128):
+                    xx = x1.to(xdt)
+                    nn = (torch.complex(base_n, -0.5 * base_n) if ndt.is_complex else base_n).to(ndt)
+                    try:
+                        if ch == "awgn":
+                            y = c(xx, noise=nn)
+                            want = xx.to(torch.complex128) + nn.to(torch.complex128)
+                        else:
+                            y = c(xx, csi=h, noise=nn)
+                            want = h.to(torch.complex128) * xx.to(torch.complex128) + nn.to(torch.complex128)
+                    except Exception:  # noqa: BLE001
+                        res.rejected += 1
+                        continue
+                    res.ev(1, nontrivial=1, transitions=1)
+                    # tolerance: one rounding of the result in the promoted precision of (signal, noise)
+                    prec = 1.2e-7 if (xdt in (torch.float32, torch.complex64) and ndt in (torch.float32, torch.complex64)) else 2.3e-16
+                    if ch != "awgn":
+                        prec = max(prec, 1.2e-7 if xdt in (torch.float32, torch.complex64) else 1.2e-7)      # csi is single precision
+                    dev = float((y.to(torch.complex128) - want).abs().max())
+                    if tuple(y.shape) != tuple(xx.shape) or dev > 4 * prec * float(want.abs().max()):
+                        v("verbatim", f"signal {str(xdt)[6:]} + supplied noise {str(ndt)[6:]}: output ({str(y.dtype)[6:]}) deviates from signal + noise by {dev:.3g}", {"x": str(xdt), "n": str(ndt)})
     res.sample({"channel": ch, "param": par, "complex": cplx, "N": N})
 
 
